@@ -90,6 +90,11 @@ type scenario struct {
 	// instant of the cancellation (see playFam): retry-sleep retry-hand flood newpeer backoff early-cancel
 	// early-park direct
 	Fam string `json:"fam"`
+	// Site: for fam "cbcancel" the callback running on the event loop inside which the context is cancelled
+	// (every other goroutine then runs to completion BEFORE the loop is released: each hand-off the loop
+	// performs after the callback meets a partner that is gone); for fam "bootstrap" the blocking point of
+	// discover.Bootstrap at which a Publish(WithReadiness) with discovery configured stands at Cancel.
+	Site string `json:"site"`
 }
 
 // ---------------------------------------------------------------------------
@@ -139,18 +144,31 @@ func marker(s string) {
 // ---------------------------------------------------------------------------
 // a discovery service for pubsub.WithDiscovery (after /repo/discovery_test.go: dummyDiscovery)
 
-type fakeDiscovery struct{}
+// fakeDiscovery: a discovery round normally takes 700 ms (or until its context ends); with hold set FindPeers
+// blocks until the harness opens the gate (or the context ends).
+type fakeDiscovery struct {
+	hold atomic.Bool
+	gate chan struct{}
+}
 
-func (fakeDiscovery) Advertise(ctx context.Context, ns string, opts ...discovery.Option) (time.Duration, error) {
+func (*fakeDiscovery) Advertise(ctx context.Context, ns string, opts ...discovery.Option) (time.Duration, error) {
 	return time.Hour, nil
 }
 
-func (fakeDiscovery) FindPeers(ctx context.Context, ns string, opts ...discovery.Option) (<-chan peer.AddrInfo, error) {
+func (d *fakeDiscovery) FindPeers(ctx context.Context, ns string, opts ...discovery.Option) (<-chan peer.AddrInfo, error) {
 	ch := make(chan peer.AddrInfo)
+	hold := d.hold.Load()
 	go func() {
-		select {
-		case <-time.After(700 * time.Millisecond):
-		case <-ctx.Done():
+		if hold {
+			select {
+			case <-d.gate:
+			case <-ctx.Done():
+			}
+		} else {
+			select {
+			case <-time.After(700 * time.Millisecond):
+			case <-ctx.Done():
+			}
 		}
 		close(ch)
 	}()
@@ -169,6 +187,7 @@ type call struct {
 	ord   int    // ordinal among the calls of this api made after the cancellation (0 otherwise)
 	qord  int    // ordinal of its bare send on a queue whose consumer has stopped (0 = none)
 	k     int    // resource index (topic "t<k>")
+	topic string // overrides "t<k>"
 	done  chan struct{}
 	res   string
 	retAt int64
@@ -189,6 +208,7 @@ type run struct {
 
 	net    *hnet.Net
 	nh     *nutHost
+	disc   *fakeDiscovery
 	h      *hnet.WrapHost
 	extra  []*hnet.FakePeer
 	atCancel []string
@@ -368,6 +388,9 @@ func errClass(err error) string {
 func (r *run) invoke(c *call) string {
 	ps, k := r.ps, c.k
 	name := r.topicName(k)
+	if c.topic != "" {
+		name = c.topic
+	}
 	switch c.api {
 	case "PubSub.Join":
 		_, err := ps.Join(name)
@@ -440,8 +463,15 @@ func (r *run) invoke(c *call) string {
 	case "PubSub.Publish":
 		return errClass(ps.Publish(name, []byte("ppub|"+strconv.Itoa(k))))
 	case "Topic.PublishReady":
+		block := c.phase == "handling"
 		return errClass(r.topics[k].Publish(context.Background(), []byte("rpub|"+strconv.Itoa(k)),
-			pubsub.WithReadiness(func(pubsub.PubSubRouter, string) (bool, error) { return true, nil })))
+			pubsub.WithReadiness(func(pubsub.PubSubRouter, string) (bool, error) {
+				if block { // runs on the event loop
+					close(r.park.entered)
+					<-r.park.release
+				}
+				return true, nil
+			})))
 	case "Topic.PublishNotReady":
 		// the router never becomes ready: the call polls (readiness loop / discover.Bootstrap) until
 		// the instance context is cancelled
@@ -551,7 +581,7 @@ func (r *run) build() {
 	r.rec = rec.New(names, h.ID())
 	r.rec.Hook = func(ev rec.M) {
 		p := r.park
-		if p != nil && p.armed.Load() && p.match(ev) && p.armed.CompareAndSwap(true, false) {
+		if p != nil && p.match != nil && p.armed.Load() && p.match(ev) && p.armed.CompareAndSwap(true, false) {
 			close(p.entered)
 			<-p.release
 		}
@@ -561,7 +591,17 @@ func (r *run) build() {
 	if s.DefVal {
 		opts = append(opts, pubsub.WithDefaultValidator(func(context.Context, peer.ID, *pubsub.Message) bool { return true }))
 	}
-	if strings.HasPrefix(s.Fam, "retry") {
+	if s.Fam == "cbcancel" && s.Site == "inspector" {
+		opts = append(opts, pubsub.WithAppSpecificRpcInspector(func(from peer.ID, _ *pubsub.RPC) error {
+			p := r.park // runs on the event loop
+			if p != nil && from == r.p1.ID() && p.armed.CompareAndSwap(true, false) {
+				close(p.entered)
+				<-p.release
+			}
+			return nil
+		}))
+	}
+	if strings.HasPrefix(s.Fam, "retry") || (s.Fam == "cbcancel" && s.Site == "Drop") {
 		opts = append(opts, pubsub.WithPeerOutboundQueueSize(2))
 	}
 	early := strings.HasPrefix(s.Fam, "early")
@@ -570,7 +610,8 @@ func (r *run) build() {
 		pubsub.DiscoveryPollInitialDelay = 700 * time.Millisecond
 	}
 	if s.Disc {
-		opts = append(opts, pubsub.WithDiscovery(fakeDiscovery{}))
+		r.disc = &fakeDiscovery{gate: make(chan struct{})}
+		opts = append(opts, pubsub.WithDiscovery(r.disc))
 	}
 	if s.Tcbl {
 		bl, err := pubsub.NewTimeCachedBlacklist(time.Hour)
@@ -632,6 +673,10 @@ func (r *run) build() {
 	}
 	names.AddPeer(r.p1.ID(), "p1")
 	names.AddPeer(r.p2.ID(), "p2")
+	names.AddPeer(r.p3.ID(), "p3")
+	for _, f := range r.extra {
+		names.AddPeer(f.ID(), f.Name)
+	}
 	if err := r.p1.DialNUT(); err != nil {
 		r.t.Fatalf("c14: connect p1: %v", err)
 	}
@@ -821,7 +866,7 @@ func statementAt(loc string) string {
 func pointsNow(exclude map[int]bool) []string {
 	seen := map[string]bool{}
 	for _, g := range allGoroutines() {
-		if exclude[g.id] || strings.HasPrefix(g.root, "verifharness/") || strings.HasPrefix(g.root, "testing.") {
+		if exclude[g.id] || strings.HasPrefix(g.root, "testing.") {
 			continue
 		}
 		for i, fn := range g.funcs {
@@ -831,7 +876,9 @@ func pointsNow(exclude map[int]bool) []string {
 					stmt = statementAt(g.locs[i])
 				}
 				root := g.root
-				if !strings.HasPrefix(root, libPrefix) {
+				if strings.HasPrefix(root, "verifharness/") {
+					root = "(caller)" // an API call in progress, on a goroutine of the harness
+				} else if !strings.HasPrefix(root, libPrefix) {
 					root = "(host)"
 				}
 				seen[shortFn(root)+" | "+shortFn(fn)+" | "+stmt] = true
@@ -1198,6 +1245,143 @@ func (r *run) parkOnRecv() {
 	}
 }
 
+// parkAtSite parks the event loop inside one of the callbacks the library runs on it.
+func (r *run) parkAtSite(site string) {
+	r.park = &parkPoint{entered: make(chan struct{}), release: make(chan struct{})}
+	kind := func(k string, extra func(ev rec.M) bool) {
+		r.park.match = func(ev rec.M) bool {
+			kk, _ := ev["k"].(string)
+			return kk == k && (extra == nil || extra(ev))
+		}
+	}
+	fromPeer := func(name string) func(rec.M) bool {
+		return func(ev rec.M) bool { p, _ := ev["p"].(string); return p == name }
+	}
+	subscribeTo := func(topic string, opts ...pubsub.SubOpt) *pubsub.Subscription {
+		sub, err := r.ps.Subscribe(topic, opts...)
+		if err != nil {
+			r.t.Fatalf("c14: cbcancel subscribe %s: %v", topic, err)
+		}
+		r.settle()
+		return sub
+	}
+	msg := func(name, topic string, sign bool) { r.p1.Send(hnet.MsgRPC(r.p1.NewMessage(name, topic, 16, sign))) }
+	arm := func() { r.park.armed.Store(true) }
+	switch site {
+	case "Up": // OnNewOutboundStream: the loop adopted a new outbound stream and has not yet handed over the hello
+		kind("Up", fromPeer("p3"))
+		arm()
+		if err := r.p3.DialNUT(); err != nil {
+			r.note("cbcancel: connect p3: %v", err)
+		}
+		hnet.Settle(20 * time.Millisecond)
+	case "Down":
+		kind("Down", fromPeer("p2"))
+		arm()
+		r.start(r.newCall("PubSub.BlacklistPeer", "SelSend", "before")) // phase "before": targets p2
+	case "Join":
+		c := r.newCall("PubSub.Subscribe", "SelSend_Recv", "handling")
+		kind("Join", nil)
+		arm()
+		r.start(c)
+	case "Leave":
+		c := r.newCall("Subscription.Cancel", "SelSend", "handling")
+		r.settle()
+		r.park.match = func(ev rec.M) bool { k, _ := ev["k"].(string); return k == "Leave" || k == "Join" }
+		arm()
+		r.start(c)
+	case "Graft", "Prune": // gossipsub: p1 and p2 are subscribed to "shared"
+		if site == "Graft" {
+			c := r.newCall("PubSub.Subscribe", "SelSend_Recv", "handling")
+			c.topic = "shared"
+			kind("Graft", nil)
+			arm()
+			r.start(c)
+		} else {
+			c := r.newCall("Subscription.Cancel", "SelSend", "handling")
+			r.subs[c.k].Cancel()
+			r.subs[c.k] = subscribeTo("shared")
+			hnet.Settle(20 * time.Millisecond)
+			kind("Prune", nil)
+			arm()
+			r.start(c)
+		}
+	case "Recv":
+		kind("Recv", fromPeer("p1"))
+		arm()
+		r.p1.Send(hnet.SubRPC("parker", true))
+	case "Send":
+		c := r.newCall("PubSub.Subscribe", "SelSend_Recv", "handling")
+		kind("Send", nil)
+		arm()
+		r.start(c)
+	case "Drop":
+		r.h.GateWrites(r.p2.ID())
+		for i := 0; i < 3; i++ {
+			subscribeTo(fmt.Sprintf("fill%d", i))
+		}
+		c := r.newCall("PubSub.Subscribe", "SelSend_Recv", "handling")
+		kind("Drop", fromPeer("p2"))
+		arm()
+		r.start(c)
+	case "Deliver", "Duplicate", "Reject":
+		subscribeTo("dl")
+		switch site {
+		case "Deliver":
+			kind("Deliver", nil)
+			arm()
+			msg("d1", "dl", true)
+		case "Duplicate":
+			m := r.p1.NewMessage("d1", "dl", 16, true)
+			r.p1.Send(hnet.MsgRPC(m))
+			hnet.Settle(20 * time.Millisecond)
+			kind("Duplicate", nil)
+			arm()
+			r.p1.Send(hnet.MsgRPC(m)) // the same bytes again
+		case "Reject":
+			kind("Reject", nil)
+			arm()
+			msg("d2", "dl", false) // unsigned under StrictSign: rejected on the loop
+		}
+	case "Undeliverable":
+		subscribeTo("ud", pubsub.WithBufferSize(1))
+		msg("u1", "ud", true)
+		hnet.Settle(20 * time.Millisecond)
+		kind("Undeliverable", nil)
+		arm()
+		msg("u2", "ud", true)
+	case "inspector":
+		arm()
+		r.p1.Send(hnet.SubRPC("parker", true))
+	case "filter":
+		subscribeTo("fl", pubsub.WithMessageFilter(func(*pubsub.Message) bool {
+			p := r.park // runs on the event loop
+			if p.armed.CompareAndSwap(true, false) {
+				close(p.entered)
+				<-p.release
+			}
+			return true
+		}))
+		arm()
+		msg("f1", "fl", true)
+	case "partial":
+		c := r.newCall("PublishPartial", "SelSend_SelRecv", "handling")
+		r.partIn, r.partGate = r.park.entered, r.park.release
+		r.start(c)
+	case "ready":
+		c := r.newCall("Topic.PublishReady", "Publish", "handling")
+		r.start(c)
+	default:
+		r.t.Fatalf("c14: unknown callback site %q", site)
+	}
+	hnet.Settle(20 * time.Millisecond)
+	select {
+	case <-r.park.entered:
+	default:
+		r.note("event loop was not parked at %s", site)
+	}
+}
+
 // playFam: fixed scenario families; each brings some library goroutines to one of their blocking points at
 // the instant of the cancellation (recorded in "atcancel"), the inventory after the shutdown is the judge.
 func (r *run) playFam() {
@@ -1334,14 +1518,57 @@ func (r *run) playFam() {
 		r.start(first)
 		r.settle()
 		hnet.AdvanceTo(500)
+	case "cbcancel":
+		hnet.AdvanceTo(1500)
+		r.start(first)
+		r.settle()
+		r.parkAtSite(s.Site)
+	case "bootstrap":
+		// Publish(WithReadiness) with discovery configured, router never ready, caller context without
+		// deadline: discover.Bootstrap polls; the call is started after the poll tick at 2000 ms so that the
+		// discovery round it waits for is its own
+		hnet.AdvanceTo(2050)
+		r.start(first)
+		r.settle()
+		c := r.newCall("Topic.PublishNotReady", "Publish", "validator")
+		r.settle()
+		switch s.Site {
+		case "eval": // the ready check's hand-off to a parked loop
+			r.parkOnRecv()
+			r.start(c)
+			r.settle()
+		case "round": // waiting for disc.done while FindPeers is running
+			r.disc.hold.Store(true)
+			r.start(c)
+			r.settle()
+		case "timer": // the round is over: the 100 ms pause before the next ready check
+			r.disc.hold.Store(true)
+			r.start(c)
+			r.settle()
+			close(r.disc.gate)
+			r.settle()
+		default:
+			r.t.Fatalf("c14: unknown bootstrap site %q", s.Site)
+		}
 	default:
 		r.t.Fatalf("c14: unknown family %q", s.Fam)
 	}
 	r.atCancel = pointsNow(staleGoroutines)
+	for _, c := range r.calls {
+		if c.start != 0 && !returned(c) {
+			c.when = "at-cancel"
+		}
+	}
 	r.cancelAt = hnet.NowMs()
 	r.cancel()
 	r.stopped = true
 	r.settle()
+	if s.Fam == "cbcancel" {
+		// every other goroutine runs to completion FIRST: whatever the loop hands over after the callback
+		// meets a partner that is gone
+		time.Sleep(200 * time.Millisecond)
+		synctest.Wait()
+	}
 	if r.park != nil {
 		close(r.park.release)
 	}
@@ -1378,7 +1605,7 @@ func (r *run) finish(blAsync, blWorkers int) {
 	left := libraryGoroutines(staleGoroutines)
 	r.out.emit(vh.M{"e": "exit", "scn": s.ID, "left": strings.Join(left, ","), "n": len(left), "notes": strings.Join(r.notes, "; "),
 		"backlog": s.Backlog, "bl_n": blAsync, "bl_workers": blWorkers, "bl_parked": s.Backlog != "" && s.Parker != 0, "bl_pre": s.Backlog != "" && s.BacklogPre && s.Parker != 0,
-		"fam": s.Fam, "atcancel": r.atCancel})
+		"fam": s.Fam, "site": s.Site, "atcancel": r.atCancel})
 }
 
 // goroutines left behind by earlier scenarios (they stay blocked in their dead bubble)
